@@ -13,10 +13,10 @@ import (
 func init() {
 	register(&Rule{ID: "C11.VISIT", Min: 17, Doc: "every child of an expression node is checked on every path (or a diagnostic is emitted): no sub-expression escapes the semantic and untrusted-input checks", Run: runC11Visit})
 	register(&Rule{ID: "C11.SITE", Min: 3, Doc: "the untrusted-input checker is enabled exactly for run: scripts and the script input of actions/github-script", Run: runC11Site})
-	register(&Rule{ID: "C11.PAIR", Min: 2, Doc: "enter/leave callbacks of the untrusted checker bracket every node; Init before and OnVisitEnd after the walk", Run: runC11Pair})
+	register(&Rule{ID: "C11.PAIR", Min: 3, Doc: "enter/leave callbacks of the untrusted checker bracket every node; Init before and OnVisitEnd after the walk", Run: runC11Pair})
 	register(&Rule{ID: "C11.ORDER", Min: 2, Doc: "the index of an index access is visited before its operand in both traversals", Run: runC11Order})
-	register(&Rule{ID: "C11.SAFE", Min: 1, Doc: "the sanitising functions are exactly contains, startsWith, endsWith", Run: runC11Safe})
-	register(&Rule{ID: "C11.RESET", Min: 2, Doc: "the matcher state is reset on every path of end() and by Init()", Run: runC11Reset})
+	register(&Rule{ID: "C11.SAFE", Min: 3, Doc: "the sanitising functions are exactly contains, startsWith, endsWith; their nesting depth is counted up and down by one for exactly these calls", Run: runC11Safe})
+	register(&Rule{ID: "C11.RESET", Min: 5, Doc: "the matcher state is reset on every path of end() and by Init(); every chain is ended: at the end of the walk, before the next chain starts, and by every node that does not continue it", Run: runC11Reset})
 }
 
 // exprNodeChildren: ExprNode-typed fields of a concrete node type.
@@ -943,6 +943,7 @@ func runC11Pair(c *Ctx) {
 	} else {
 		c.bad("(*ExprSemanticsChecker).check|enter then deferred leave", check.Pos(), "the enter callback / deferred leave callback do not bracket every node visit: the bottom-up matcher misses nodes or sees them in the wrong order")
 	}
+	c11OnlyCheckDispatches(c, check)
 	// forwarders (when the callbacks are not called directly) hand the node to the untrusted checker when it exists
 	for _, f := range fwd {
 		var cb ssa.CallInstruction
@@ -1103,6 +1104,7 @@ func runC11Safe(c *Ctx) {
 	} else {
 		c.bad("UntrustedInputMap.Name|lower-case", 0, "a node of the untrusted-input tree has a name that is not lower-case: the lower-cased property never matches it")
 	}
+	c11SafeDepth(c)
 }
 
 func runC11Reset(c *Ctx) {
@@ -1135,6 +1137,7 @@ func runC11Reset(c *Ctx) {
 			c.bad(construct, f.Pos(), "a path returns without reset(): candidate paths / the object-filter flag of one chain leak into the next chain of the expression")
 		}
 	}
+	c11ChainEnds(c)
 }
 
 // comparesLowerName: the non-constant side of the comparison is a lower-cased name: the key of the range over the step's
